@@ -65,6 +65,10 @@ static void run_approx(Maximisers & M, int call, const F::Action & A, const Rule
     {
         auto [a, v] = M.mp(A, g);
         Line l; l << "C13" << "mp" << call; l.nats(A); putRules(l, rules); l << "|"; l.nats(a) << v; l.emit();
+        // the same call with everything the message-passing model needs: iteration count and the graph's node order
+        Line m; m << "C13" << "mpfull" << call << (size_t)M.mp.getIterations() << (size_t)g.factorSize();
+        for (auto f = g.begin(); f != g.end(); ++f) m.nats(f->getVariables());
+        m.nats(A); putRules(m, rules); m << "|"; m.nats(a) << v; m.emit();
     }
     {
         auto [a, v] = M.rils(A, g);
